@@ -160,6 +160,16 @@ def _polarimetry_matrices(pol: Polarimetry, cls: ClassInfo):
 
 
 def _strict_guard(table, cls: ClassInfo) -> bool:
+    """The strict diagonal variant refuses every request whose product does not have the shape of the leaf: recognised in
+    its usual written form, and otherwise decided by interpreting the construction and application of the class (C11.D7)."""
+    if _strict_guard_written(table, cls):
+        return True
+    from . import c11
+
+    return c11.strict_rejection(table.world, table, cls) is True
+
+
+def _strict_guard_written(table, cls: ClassInfo) -> bool:
     """DiagonalOperator._check_leaf_shapes raises when the broadcast shape differs from the input leaf shape,
     and the inherited mv reaches it."""
     r = table.resolve(cls, '_check_leaf_shapes')
